@@ -12,10 +12,16 @@ extern crate alloc;
 
 pub mod nd;
 pub mod util;
+pub mod usertypes;
 
+pub mod c01;
 pub mod c02;
+pub mod c03;
+pub mod c05;
 pub mod c10;
 pub mod c14;
+pub mod c15;
+pub mod c18;
 pub mod c20;
 
 #[cfg(not(kani))]
